@@ -25,6 +25,12 @@ not); a panic is still compared as a panic.
   write_accounts_accepted   `stats.update(&buf[..count])` uses the count the encoder ACCEPTED (any `ext.accept`)
   sim_end_extra_data / tie_end_extra_data     Gen.ZipWriter.end_extra_data  ~ Model.endExtraData
   sim_finish_file / tie_finish_file           Gen.ZipWriter.finish_file     ~ Model.finishFile
+  sim_finalize      Gen.ZipWriter.finalize ~ Model.finalize   (comment length check, finish_file, central
+                    directory loop = `writeAllCentral` (`central_loop`), the ZIP64 decision, the saturated
+                    16/32-bit fields, the three end records)
+  sim_finish        Gen.ZipWriter.finish   ~ Model.finish
+  sim_drop          Gen.ZipWriter.drop     ~ `dropBody` (`Drop::drop` proper; `dropWriter_eq`: the model's
+                    `dropWriter` is `dropBody` followed by the field destructors `dropInner`)
 
 Methods that READ sink positions (`stream_position()`) or call such methods are tied by a REFINEMENT
 (`Refines x y`, and `Sim φ P x y` = refinement + a postcondition `P` on the values `x` returns, which a
@@ -49,6 +55,10 @@ Hypotheses, and why (each is where the model idealises):
   * per open entry (the last of `files`): `extra_field.len() ≤ isize::MAX` (a Rust `Vec`),
     `data_start + extra_field.len() < 2^64`, `header_start + 34 + file_name.len() < 2^64` - the source
     computes these positions in checked `u64`, the model in `Nat`.
+  * `FileOK` for every entry (`finalize`): `extra_field.len() ≤ isize::MAX` and a DOS-representable time
+    (year ≥ 1980; a type invariant of `DateTime`): the model raises the serialiser's `datepart` panic
+    before the serialiser's first write, the source after it - with an injected sink fault the two
+    differ, so the panic is excluded; `files.len() < 2^64`, `comment.len() < 2^64` (Rust `Vec`s).
 
 TRUSTED VOCABULARY (external code; `Basic/RsS.lean` gives each name the meaning of the model's existing
 treatment in `Model/Writer.lean` - `Inner`, `EncState`, `WExt`, `switchTo`, `emit`, `emitFinish`):
@@ -63,7 +73,10 @@ treatment in `Model/Writer.lean` - `Inner`, `EncState`, `WExt`, `switchTo`, `emi
     call; `OVF` panic beyond u64, see above), `writer.seek(SeekFrom::Start(p))`, `writer.write_all(bs)`,
     `writer.write_uNN::<LittleEndian>(v)` are the device primitives; a translated serialiser called with
     `writer` (`update_local_file_header(writer, file)?`, tier T3) is replayed action by action
-    (`Rs.S.runW`: its log of writes / seeks, then its own outcome);
+    (`Rs.S.runW`: its log of writes / seeks, then its own outcome; `Rs.S.runWB` for serialisers that only
+    write: their chunks through `M.writeChunks`); `for x in vec.iter() { … }` whose body assigns nothing
+    outside and leaves only by `?` is `Rs.S.forEach`; `inner.unwrap()` is `get_plain` by value;
+    `let _ = write!(io::stderr(), …)` is dropped (the process's stderr is not modelled);
   * `inner.switch_to(method, level)` is the model's `switchTo` (`Rs.S.switch_to`, `switchTo_via`: finish
     the running encoder - `ext.compress` of everything it consumed goes to the sink or into the ZipCrypto
     buffer, with the destructor's second attempt of flate2 / bzip2 after a failed write -, level
@@ -764,6 +777,15 @@ theorem runW_nolog {σ α} (x : Rs.W Rs.Act α) (st : σ) (h : x.log = []) :
   simp only [Rs.S.runW, h, Rs.S.replay]
   rfl
 
+/-- the same for a write-only serialiser -/
+theorem runWB_nolog {σ α} (x : Rs.W Bytes α) (st : σ) (h : x.log = []) :
+    (Rs.S.runWB x st).toM = match x.res with
+      | some (.ok a) => pure (.ok a)
+      | some (.error e) => pure (.error (Rs.zerr e, st))
+      | none => M.panic "rs2lean: checked operation" := by
+  simp only [Rs.S.runWB, h, M.writeChunks]
+  rfl
+
 theorem zerr_eq (e : Rs.ZipErr) : Rs.zerr e = zerrOf e := by
   cases e with
   | Io k => cases k <;> rfl
@@ -799,9 +821,9 @@ theorem sim_end_extra_data (ext : Rs.S.Ext) (g : Gen.ZipWriter)
         exact Sim.panic _ _
       | some f =>
         obtain ⟨hlen, hds, hhs⟩ := hf f hl
-        obtain ⟨vlog, vres⟩ := tie_validate_extra_data (ω := Rs.Act) f (dataOf f) (view_dataOf f) hlen
-        have hval := runW_nolog (σ := Gen.ZipWriter) (Gen.validate_extra_data (ω := Rs.Act) f) g vlog
-        cases hv : (Gen.validate_extra_data (ω := Rs.Act) f).res with
+        obtain ⟨vlog, vres⟩ := tie_validate_extra_data (ω := Bytes) f (dataOf f) (view_dataOf f) hlen
+        have hval := runWB_nolog (σ := Gen.ZipWriter) (Gen.validate_extra_data (ω := Bytes) f) g vlog
+        cases hv : (Gen.validate_extra_data (ω := Bytes) f).res with
         | none => rw [hv] at vres; cases vres
         | some vr =>
           rw [hv] at vres hval
@@ -1209,5 +1231,428 @@ theorem tie_finish_file (ext : Rs.S.Ext) (g : Gen.ZipWriter)
       f.header_start.toNat + 34 + f.file_name.length < 18446744073709551616) :
     Refines (absR <$> Rs.S.run (Gen.ZipWriter.finish_file ext g)) (finishFile ext.toWExt (absW g)) :=
   (sim_finish_file ext g hf).refines
+
+/-! ### `finalize`, `finish`, `Drop::drop` -/
+
+theorem runWB_ok {σ α} (a : α) (l : List Bytes) (st : σ) :
+    (Rs.S.runWB ⟨some (.ok a), l⟩ st).toM = (M.attempt (M.writeChunks l) >>= fun r => match r with
+      | .error e => pure (.error (e, st))
+      | .ok _ => pure (.ok a)) := rfl
+
+theorem runWB_err {σ α} (e : Rs.ZipErr) (st : σ) :
+    (Rs.S.runWB (⟨some (.error e), []⟩ : Rs.W Bytes α) st).toM = pure (.error (zerrOf e, st)) := by
+  simp only [Rs.S.runWB, M.writeChunks, zerr_eq]
+  rfl
+
+/-- `write_central_directory_header` as a whole value (outcome AND what was written): on `Err` nothing was
+handed to the sink.  `hnp`: the serialiser does not panic (the entry's time is a DOS time). -/
+theorem wcdh_full (f : Gen.ZipFileData) (hlen : f.extra_field.length ≤ 9223372036854775807)
+    (hnp : ∀ s, centralHeaderChunks (dataOf f) ≠ .panic s) :
+    (∃ l, centralHeaderChunks (dataOf f) = .ok l ∧
+        Gen.write_central_directory_header (ω := Bytes) f = ⟨some (.ok ()), l⟩) ∨
+    (centralHeaderChunks (dataOf f) = .err .invalidArchive ∧
+        Gen.write_central_directory_header (ω := Bytes) f = ⟨some (.error .InvalidArchive), []⟩) := by
+  have h := view_dataOf f
+  have hl : (dataOf f).extraField.length ≤ 9223372036854775807 := hlen
+  have tie := tie_write_central_directory_header f (dataOf f) h hl
+  by_cases hov : (centralZip64Bytes (dataOf f)).length + (dataOf f).extraField.length < 65536
+  · left
+    cases hc : centralHeaderChunks (dataOf f) with
+    | panic s => exact absurd hc (hnp s)
+    | err e =>
+      exfalso
+      unfold centralHeaderChunks at hc
+      have hov' : ¬ (centralZip64Bytes (dataOf f)).length + (dataOf f).extraField.length > 65535 := by omega
+      simp only [hov', ↓reduceIte] at hc
+      unfold datepartOut at hc
+      cases hd : (dataOf f).time.datepart <;> rw [hd] at hc <;> cases hc
+    | ok l =>
+      refine ⟨l, rfl, ?_⟩
+      rw [hc] at tie
+      rcases hx : Gen.write_central_directory_header (ω := Bytes) f with ⟨res, log⟩
+      rw [hx] at tie
+      cases res with
+      | none => cases tie
+      | some r =>
+        cases r with
+        | error e => cases tie
+        | ok u => simp only [chunks, ofOut, Option.some.injEq, Except.ok.injEq] at tie; rw [tie]
+  · right
+    have hov' : (centralZip64Bytes (dataOf f)).length + (dataOf f).extraField.length > 65535 := by omega
+    refine ⟨?_, ?_⟩
+    · unfold centralHeaderChunks
+      simp only [hov', ↓reduceIte]
+    · have hbuf := intoBuf_central (ω := Bytes) f (dataOf f) h
+      have hzl := centralZip64Bytes_length_le (dataOf f)
+      have hlt : (centralZip64Bytes (dataOf f)).length + (dataOf f).extraField.length < 18446744073709551616 := by omega
+      obtain ⟨hv, hvm, he, ht, hcrc, hn, hx, hlf, hdd⟩ := h
+      unfold Gen.write_central_directory_header
+      simp only [hbuf, hx]
+      wsimp [add_elen _ _ hzl hl, tryInto_u16 _ hlt, hov, hov', Rs.mapErr, Rs.W.ofExcept]
+
+/-- the central-directory loop of `finalize`: the translated `for` loop is the model's `writeAllCentral` -/
+theorem central_loop (st : Gen.ZipWriter) (s : WState) : ∀ (fs : List Gen.ZipFileData),
+    (∀ f, f ∈ fs → f.extra_field.length ≤ 9223372036854775807 ∧ ∀ z, centralHeaderChunks (dataOf f) ≠ .panic z) →
+    (Rs.S.forEach fs (fun file => do
+          let t5 ← Rs.S.runWB (Gen.write_central_directory_header (ω := Bytes) file) st
+          pure ())).toM =
+      (finalize.writeAllCentral s (fs.map dataOf) >>= fun p => match p.1 with
+        | .ok _ => pure (.ok ())
+        | .error e => pure (.error (e, st))) := by
+  intro fs
+  induction fs with
+  | nil =>
+    intro _
+    unfold finalize.writeAllCentral Rs.S.forEach
+    rfl
+  | cons f rest ih =>
+    intro h
+    obtain ⟨hlen, hnp⟩ := h f (List.mem_cons_self)
+    have ih' := ih (fun f' hf' => h f' (List.mem_cons_of_mem _ hf'))
+    rw [List.map_cons]
+    unfold finalize.writeAllCentral Rs.S.forEach
+    rcases wcdh_full f hlen hnp with ⟨l, hc, hg⟩ | ⟨hc, hg⟩
+    · rw [hc, hg]
+      ssimp [runWB_ok, Model.io, ih']
+      refine bind_congr fun r => ?_
+      cases r <;> ssimp []
+    · rw [hc, hg]
+      ssimp [runWB_err, zerrOf]
+
+/-- `writeAllCentral` hands its state back unchanged -/
+theorem wac_state (s : WState) : ∀ (fs : List FileData),
+    finalize.writeAllCentral s fs = (finalize.writeAllCentral s fs >>= fun p => pure (p.1, s)) := by
+  intro fs
+  induction fs with
+  | nil => unfold finalize.writeAllCentral; rfl
+  | cons f rest ih =>
+    unfold finalize.writeAllCentral
+    cases centralHeaderChunks f with
+    | panic z => rfl
+    | err e => rfl
+    | ok l =>
+      simp only [Model.io, bind_assoc]
+      refine bind_congr fun r => ?_
+      cases r with
+      | error e => rfl
+      | ok u => exact ih
+
+theorem chc_nopanic (g : FileData) (h : g.time.datepart ≠ none) : ∀ z, centralHeaderChunks g ≠ .panic z := by
+  intro z hc
+  unfold centralHeaderChunks datepartOut at hc
+  cases hd : g.time.datepart with
+  | none => exact h hd
+  | some d =>
+    rw [hd] at hc
+    simp only [] at hc
+    split at hc <;> cases hc
+
+/-- facts about the entries that no method changes (`fkey` keeps them) -/
+def FileOK (f : Gen.ZipFileData) : Prop :=
+  f.extra_field.length ≤ 9223372036854775807 ∧ (dataOf f).time.datepart ≠ none
+
+theorem fileOK_fkey (f f' : Gen.ZipFileData) (h : fkey f = fkey f') (hf : FileOK f) : FileOK f' := by
+  have e1 : f.extra_field = f'.extra_field := show (fkey f).extra_field = (fkey f').extra_field from congrArg _ h
+  have e2 : f.last_modified_time = f'.last_modified_time :=
+    show (fkey f).last_modified_time = (fkey f').last_modified_time from congrArg _ h
+  unfold FileOK at *
+  simp only [dataOf] at *
+  rw [← e1, ← e2]; exact hf
+
+theorem allOK_frame (l l' : List Gen.ZipFileData) (h : l'.map fkey = l.map fkey)
+    (hl : ∀ f, f ∈ l → FileOK f) : ∀ f, f ∈ l' → FileOK f := by
+  intro f' hf'
+  have : fkey f' ∈ l.map fkey := by rw [← h]; exact List.mem_map_of_mem hf'
+  obtain ⟨f, hf, he⟩ := List.mem_map.mp this
+  exact fileOK_fkey f f' he (hl f hf)
+
+theorem ofNat_toNat_lt (n : Nat) (h : n < 18446744073709551616) : (UInt64.ofNat n).toNat = n := by
+  simp only [UInt64.toNat_ofNat']; omega
+
+theorem vlen_gt {α} (l : List α) (h : l.length < 18446744073709551616) :
+    (Rs.vlen l > Gen.ZIP64_ENTRY_THR) ↔ l.length > ZIP64_ENTRY_THR := by
+  have e : Gen.ZIP64_ENTRY_THR.toNat = 65535 := by decide
+  rw [gt_iff_lt, UInt64.lt_iff_toNat_lt, e, Rs.vlen, ofNat_toNat_lt _ h]
+  rfl
+
+theorem max_ofNat (a b : Nat) (ha : a < 18446744073709551616) (hb : b < 18446744073709551616) :
+    max (UInt64.ofNat a) (UInt64.ofNat b) = UInt64.ofNat (max a b) := by
+  by_cases h : a ≤ b
+  · have : UInt64.ofNat a ≤ UInt64.ofNat b := by
+      rw [UInt64.le_iff_toNat_le, ofNat_toNat_lt _ ha, ofNat_toNat_lt _ hb]; exact h
+    rw [show max (UInt64.ofNat a) (UInt64.ofNat b) = UInt64.ofNat b from if_pos this, Nat.max_eq_right h]
+  · have h' : b ≤ a := by omega
+    have : ¬ UInt64.ofNat a ≤ UInt64.ofNat b := by
+      rw [UInt64.le_iff_toNat_le, ofNat_toNat_lt _ ha, ofNat_toNat_lt _ hb]; exact h
+    rw [show max (UInt64.ofNat a) (UInt64.ofNat b) = UInt64.ofNat a from if_neg this, Nat.max_eq_left h']
+
+theorem gt_thr_ofNat (n : Nat) (h : n < 18446744073709551616) :
+    (UInt64.ofNat n > Gen.ZIP64_BYTES_THR) ↔ n > 4294967295 := by
+  rw [gt_thr, ofNat_toNat_lt _ h]
+
+theorem add_ofNat (a b : Nat) (h : a + b < 18446744073709551616) :
+    Rs.Arith.add (UInt64.ofNat a) (UInt64.ofNat b) = some (UInt64.ofNat (a + b)) := by
+  have ea := ofNat_toNat_lt a (by omega)
+  have eb := ofNat_toNat_lt b (by omega)
+  obtain ⟨h1, h2⟩ := add_u64 (UInt64.ofNat a) (UInt64.ofNat b) (by rw [ea, eb]; exact h)
+  rw [h1]
+  refine congrArg some ?_
+  apply UInt64.toNat_inj.mp
+  rw [h2, ea, eb, ofNat_toNat_lt _ h]
+
+theorem min32_ofNat (n : Nat) (h : n < 18446744073709551616) :
+    Rs.as' UInt32 (min (UInt64.ofNat n) Gen.ZIP64_BYTES_THR) = UInt32.ofNat (min n 4294967295) := by
+  have e : Gen.ZIP64_BYTES_THR = UInt64.ofNat 4294967295 := by decide
+  rw [e, show min (UInt64.ofNat n) (UInt64.ofNat 4294967295) = UInt64.ofNat (min n 4294967295) from ?_]
+  · apply UInt32.toNat_inj.mp
+    simp only [Rs.as', Rs.As.cast, UInt64.toNat_toUInt32, UInt64.toNat_ofNat', UInt32.toNat_ofNat']
+    omega
+  · by_cases hle : n ≤ 4294967295
+    · have : UInt64.ofNat n ≤ UInt64.ofNat 4294967295 := by
+        rw [UInt64.le_iff_toNat_le, ofNat_toNat_lt _ h, ofNat_toNat_lt _ (by omega)]; exact hle
+      rw [show min (UInt64.ofNat _) (UInt64.ofNat _) = UInt64.ofNat _ from if_pos this, Nat.min_eq_left hle]
+    · have hle' : 4294967295 ≤ n := by omega
+      have : ¬ UInt64.ofNat n ≤ UInt64.ofNat 4294967295 := by
+        rw [UInt64.le_iff_toNat_le, ofNat_toNat_lt _ h, ofNat_toNat_lt _ (by omega)]; exact hle
+      rw [show min (UInt64.ofNat n) (UInt64.ofNat 4294967295) = UInt64.ofNat 4294967295 from if_neg this, Nat.min_eq_right hle']
+
+theorem nf_ofNat {α} (l : List α) (h : l.length < 18446744073709551616) :
+    Rs.as' UInt16 (min (Rs.vlen l) Gen.ZIP64_ENTRY_THR) = UInt16.ofNat (min l.length ZIP64_ENTRY_THR) := by
+  have e : Gen.ZIP64_ENTRY_THR = UInt64.ofNat 65535 := by decide
+  have e' : ZIP64_ENTRY_THR = 65535 := rfl
+  rw [e, e', Rs.vlen, show min (UInt64.ofNat l.length) (UInt64.ofNat 65535) = UInt64.ofNat (min l.length 65535) from ?_]
+  · apply UInt16.toNat_inj.mp
+    simp only [Rs.as', Rs.As.cast, UInt64.toNat_toUInt16, UInt64.toNat_ofNat', UInt16.toNat_ofNat']
+    omega
+  · by_cases hle : l.length ≤ 65535
+    · have : UInt64.ofNat l.length ≤ UInt64.ofNat 65535 := by
+        rw [UInt64.le_iff_toNat_le, ofNat_toNat_lt _ h, ofNat_toNat_lt _ (by omega)]; exact hle
+      rw [show min (UInt64.ofNat _) (UInt64.ofNat _) = UInt64.ofNat _ from if_pos this, Nat.min_eq_left hle]
+    · have hle' : 65535 ≤ l.length := by omega
+      have : ¬ UInt64.ofNat l.length ≤ UInt64.ofNat 65535 := by
+        rw [UInt64.le_iff_toNat_le, ofNat_toNat_lt _ h, ofNat_toNat_lt _ (by omega)]; exact hle
+      rw [show min (UInt64.ofNat l.length) (UInt64.ofNat 65535) = UInt64.ofNat 65535 from if_neg this, Nat.min_eq_right hle']
+
+theorem sim_finalize (ext : Rs.S.Ext) (g : Gen.ZipWriter)
+    (hf : ∀ f, g.files.getLast? = some f →
+      f.extra_field.length ≤ 9223372036854775807 ∧
+      f.data_start.toNat + f.extra_field.length < 18446744073709551616 ∧
+      f.header_start.toNat + 34 + f.file_name.length < 18446744073709551616)
+    (hall : ∀ f, f ∈ g.files → FileOK f)
+    (hn : g.files.length < 18446744073709551616) (hc : g.comment.length < 18446744073709551616) :
+    Sim absR (fun p => p.2.files.map fkey = g.files.map fkey) (Rs.S.run (Gen.ZipWriter.finalize ext g))
+      (Model.finalize ext.toWExt (absW g)) := by
+  have hcl : (decide (Rs.len g.comment > Rs.as' UInt64 (65535 : UInt16))) = decide (g.comment.length > 65535) := by
+    have e : (Rs.as' UInt64 (65535 : UInt16)).toNat = 65535 := by decide
+    have e2 : (Rs.len g.comment).toNat = g.comment.length := by
+      simp only [Rs.len, UInt64.toNat_ofNat']; omega
+    rw [decide_eq_decide, gt_iff_lt, UInt64.lt_iff_toNat_lt, e, e2]
+  unfold Gen.ZipWriter.finalize Model.finalize
+  by_cases hcm : g.comment.length > 65535
+  · ssimp [hcl, hcm, absW, decide_true]
+    refine Sim.leaf ?_ rfl
+    simp only [absR, absW]
+  · have hca : (absW g).comment = g.comment := rfl
+    ssimp [hcl, hcm, hca, decide_false]
+    rw [toM_bind_run (Gen.ZipWriter.finish_file ext g)]
+    refine Sim.bind (sim_finish_file ext g hf) ?_
+    intro p hp
+    obtain ⟨r, g2⟩ := p
+    cases r with
+    | error e =>
+      ssimp [absR]
+      refine Sim.leaf ?_ hp
+      simp only [absR]
+    | ok u =>
+      have hall2 := allOK_frame g.files g2.files hp hall
+      have hn2 : g2.files.length < 18446744073709551616 := by
+        have := congrArg List.length hp
+        simp only [List.length_map] at this
+        omega
+      refine Sim.mono (P := fun q => q.2.files.map fkey = g2.files.map fkey) ?_ (fun a h => h.trans hp)
+      ssimp [absR]
+      have hia : (absW g2).inner = g2.inner := rfl
+      cases hin : g2.inner with
+      | closed => ssimp [hia, hin, Rs.S.get_plain]; exact Sim.panic _ _
+      | compressor m l enc pending => ssimp [hia, hin, Rs.S.get_plain]; exact Sim.panic _ _
+      | storer enc =>
+        cases enc with
+        | some e => ssimp [hia, hin, Rs.S.get_plain]; exact Sim.panic _ _
+        | none =>
+          have hloop := central_loop g2 (absW g2) g2.files
+            (fun f hf => ⟨(hall2 f hf).1, chc_nopanic _ (hall2 f hf).2⟩)
+          have hfiles : (absW g2).files = g2.files.map dataOf := rfl
+          rw [hfiles, wac_state]
+          ssimp [hia, hin, Rs.S.get_plain, Model.io, position_attempt_bind, hfiles, hloop]
+          apply Sim.congr; intro r
+          cases r with
+          | error e =>
+            ssimp []
+            refine Sim.leaf ?_ rfl
+            simp only [absR]
+          | ok p =>
+            by_cases hp64 : p < 18446744073709551616
+            · ssimp [hp64]
+              apply Sim.congr; intro r
+              obtain ⟨r1, s1⟩ := r
+              cases r1 with
+              | error e =>
+                ssimp []
+                refine Sim.leaf ?_ rfl
+                simp only [absR]
+              | ok u2 =>
+                ssimp []
+                apply Sim.congr; intro r
+                cases r with
+                | error e =>
+                  ssimp []
+                  refine Sim.leaf ?_ rfl
+                  simp only [absR]
+                | ok q =>
+                  by_cases hq64 : q < 18446744073709551616
+                  · by_cases hlt : q < p
+                    · have hlt' : q < (UInt64.ofNat p).toNat := by rw [ofNat_toNat_lt _ hp64]; exact hlt
+                      ssimp [hq64, sub_ofNat q _ hq64, hlt', hlt]
+                      exact Sim.panic _ _
+                    · have hlt' : ¬ q < (UInt64.ofNat p).toNat := by rw [ofNat_toNat_lt _ hp64]; exact hlt
+                      have hcond : (decide (Rs.vlen g2.files > Gen.ZIP64_ENTRY_THR) ||
+                          decide (max (UInt64.ofNat (q - p)) (UInt64.ofNat p) > Gen.ZIP64_BYTES_THR)) =
+                          (decide (g2.files.length > ZIP64_ENTRY_THR) || decide (max (q - p) p > 4294967295)) := by
+                        rw [max_ofNat _ _ (by omega) hp64]
+                        congr 1
+                        · rw [decide_eq_decide]; exact vlen_gt _ hn2
+                        · rw [decide_eq_decide]; exact gt_thr_ofNat _ (by omega)
+                      have hv64 : Rs.as' UInt64 (Rs.vlen g2.files) = UInt64.ofNat g2.files.length := rfl
+                      have hdv : Rs.as' UInt16 Gen.DEFAULT_VERSION = DEFAULT_VERSION.toUInt16 := rfl
+                      have hadd : p + (q - p) = q := by omega
+                      ssimp [hq64, sub_ofNat q _ hq64, hlt', hlt, ofNat_toNat_lt _ hp64, hcond, List.length_map,
+                        tie_eocd64_write, tie_locator_write, tie_eocd_write, runWB_ok, eocd64Of, locatorOf, eocdOf,
+                        add_ofNat p (q - p) (by omega), hadd, min32_ofNat _ hp64, min32_ofNat (q - p) (by omega),
+                        nf_ofNat _ hn2, hv64, hdv]
+                      by_cases hz : (decide (g2.files.length > ZIP64_ENTRY_THR) || decide (max (q - p) p > 4294967295)) = true
+                      · ssimp [hz]
+                        apply Sim.congr; intro r
+                        cases r with
+                        | error e =>
+                          ssimp []
+                          refine Sim.leaf ?_ rfl
+                          simp only [absR]
+                        | ok u3 =>
+                          ssimp []
+                          apply Sim.congr; intro r
+                          cases r with
+                          | error e =>
+                            ssimp []
+                            refine Sim.leaf ?_ rfl
+                            simp only [absR]
+                          | ok u4 =>
+                            ssimp []
+                            apply Sim.congr; intro r
+                            cases r with
+                            | error e =>
+                              ssimp []
+                              refine Sim.leaf ?_ rfl
+                              simp only [absR]
+                            | ok u5 =>
+                              ssimp []
+                              refine Sim.leaf ?_ rfl
+                              simp only [absR]
+                      · ssimp [hz]
+                        apply Sim.congr; intro r
+                        cases r with
+                        | error e =>
+                          ssimp []
+                          refine Sim.leaf ?_ rfl
+                          simp only [absR]
+                        | ok u5 =>
+                          ssimp []
+                          refine Sim.leaf ?_ rfl
+                          simp only [absR]
+                  · ssimp [hq64]
+                    exact Sim.ovf_panic _
+            · ssimp [hp64]
+              exact Sim.ovf_panic _
+
+theorem sim_finish (ext : Rs.S.Ext) (g : Gen.ZipWriter)
+    (hf : ∀ f, g.files.getLast? = some f →
+      f.extra_field.length ≤ 9223372036854775807 ∧
+      f.data_start.toNat + f.extra_field.length < 18446744073709551616 ∧
+      f.header_start.toNat + 34 + f.file_name.length < 18446744073709551616)
+    (hall : ∀ f, f ∈ g.files → FileOK f)
+    (hn : g.files.length < 18446744073709551616) (hc : g.comment.length < 18446744073709551616) :
+    Sim absR (fun p => p.2.files.map fkey = g.files.map fkey) (Rs.S.run (Gen.ZipWriter.finish ext g))
+      (Model.finish ext.toWExt (absW g)) := by
+  unfold Gen.ZipWriter.finish Model.finish
+  ssimp []
+  rw [toM_bind_run (Gen.ZipWriter.finalize ext g)]
+  refine Sim.bind (sim_finalize ext g hf hall hn hc) ?_
+  intro p hp
+  obtain ⟨r, g2⟩ := p
+  cases r with
+  | error e =>
+    ssimp [absR]
+    refine Sim.leaf ?_ hp
+    simp only [absR]
+  | ok u =>
+    have hia : (absW g2).inner = g2.inner := rfl
+    cases hin : g2.inner with
+    | closed => ssimp [absR, hia, hin, Rs.S.unwrap_sink, Rs.S.get_plain]; exact Sim.panic _ _
+    | compressor m l enc pending => ssimp [absR, hia, hin, Rs.S.unwrap_sink, Rs.S.get_plain]; exact Sim.panic _ _
+    | storer enc =>
+      cases enc with
+      | some e => ssimp [absR, hia, hin, Rs.S.unwrap_sink, Rs.S.get_plain]; exact Sim.panic _ _
+      | none =>
+        ssimp [absR, hia, hin, Rs.S.unwrap_sink, Rs.S.get_plain]
+        refine Sim.leaf ?_ hp
+        simp only [absR, absW]
+        try rfl
+
+/-- `Drop::drop` proper (the destructors of the fields that run afterwards are `Model.dropInner`) -/
+def dropBody (ext : WExt) : Step Unit := fun s => do
+  if s.inner.isClosed then pure (.ok (), s) else
+  let (_, s) ← Model.finalize ext s
+  pure (.ok (), s)
+
+theorem dropWriter_eq (ext : WExt) (s : WState) :
+    dropWriter ext s = (dropBody ext s >>= fun p => dropInner ext p.2) := by
+  unfold dropWriter dropBody
+  cases h : s.inner.isClosed
+  · simp only [Bool.false_eq_true, ↓reduceIte, bind_assoc, pure_bind]
+  · simp only [↓reduceIte, pure_bind]
+    cases hi : s.inner with
+    | closed => simp only [dropInner, hi]
+    | storer e => rw [hi] at h; cases h
+    | compressor m l e p => rw [hi] at h; cases h
+
+theorem sim_drop (ext : Rs.S.Ext) (g : Gen.ZipWriter)
+    (hf : ∀ f, g.files.getLast? = some f →
+      f.extra_field.length ≤ 9223372036854775807 ∧
+      f.data_start.toNat + f.extra_field.length < 18446744073709551616 ∧
+      f.header_start.toNat + 34 + f.file_name.length < 18446744073709551616)
+    (hall : ∀ f, f ∈ g.files → FileOK f)
+    (hn : g.files.length < 18446744073709551616) (hc : g.comment.length < 18446744073709551616) :
+    Sim absR (fun p => p.2.files.map fkey = g.files.map fkey) (Rs.S.run (Gen.ZipWriter.drop ext g))
+      (dropBody ext.toWExt (absW g)) := by
+  unfold Gen.ZipWriter.drop dropBody
+  have hia : (absW g).inner = g.inner := rfl
+  cases hcl : g.inner.isClosed
+  · ssimp [hia, hcl, Rs.S.is_closed]
+    rw [toM_bind_run (Gen.ZipWriter.finalize ext g)]
+    refine Sim.bind (sim_finalize ext g hf hall hn hc) ?_
+    intro p hp
+    obtain ⟨r, g2⟩ := p
+    cases r with
+    | error e =>
+      ssimp [absR]
+      refine Sim.leaf ?_ hp
+      simp only [absR]
+    | ok u =>
+      ssimp [absR]
+      refine Sim.leaf ?_ hp
+      simp only [absR]
+  · ssimp [hia, hcl, Rs.S.is_closed]
+    refine Sim.leaf ?_ rfl
+    simp only [absR]
+
 
 end ZipVerif.Tie.WriterSM
